@@ -1281,9 +1281,10 @@ namespace
     value append_array_array(runtime& runtime, value::cref left, value::cref right)
     {
         auto arr = left.data<d_array>();
-        auto r = right.data<d_array>();
+        // copy of the elements: the right array may be the left one itself (`_a append _a`)
+        auto r = right.data<d_array>()->value();
         auto oldsize = arr->size();
-        arr->insert(arr->end(), r->begin(), r->end());
+        arr->insert(arr->end(), r.begin(), r.end());
         if (!arr->recursion_test())
         { // the appended elements lead back to the array itself: refuse, like pushBack and set do
             arr->resize(oldsize);
